@@ -67,12 +67,16 @@ func (a *Adv) ensureSession() bool {
 	a.Logons++
 	if a.o.HonestLogon {
 		p.OutSeq = a.engT()
+		mirror := false
 		if a.s.E.Cfg.Initiator {
 			if lg, ok := LastOfType(p.Recv, "A"); ok && lg.Conn == p.Conn && lg.Str(141) == "Y" {
 				p.OutSeq = 1
+				mirror = true
 			}
+		} else if a.s.E.Cfg.ResetOnLogon {
+			p.OutSeq = 1
 		}
-		a.send("A", p.LogonBody(a.hb, false), MsgOpt{})
+		a.send("A", p.LogonBody(a.hb, mirror), MsgOpt{})
 		return p.Connected()
 	}
 	reset := ch.Chance("logonreset", 1, 6) && a.s.E.Cfg.BeginString >= "FIX.4.1"
